@@ -813,7 +813,15 @@ func (w *World) VerifyFunc(fn *ssa.Function) *VC {
 			if isPanic {
 				kind = "panicpost"
 			}
+			n0 := len(vc.Obls)
 			vc.Oblige(label, kind, fmt.Sprintf("%d", k), pc, t, e.c.Src)
+			if len(exits) > 1 && len(exits) <= 12 {
+				for _, ob := range vc.Obls[n0:] {
+					for _, ex := range exits {
+						ob.Cases = append(ob.Cases, ex.PC)
+					}
+				}
+			}
 		}
 		if isPanic && (ec.noPanic || ec.pure) {
 			vc.Oblige(label, "nopanic", "", pc, False, "function must not panic")
@@ -875,7 +883,7 @@ func (f *Frame) frameObligation(label string, ec *effContract, pre *SpecEnv, h0,
 				}
 				r := Term{"r!", SInt}
 				root := App("root!", SInt, r)
-				goals = append(goals, Forall([]Term{r}, Implies(And(Le(root, alloc0), Ne(r, IntLit(0)), Ne(root, IntLit(0))), Eq(Sel(t1, r), Sel(t0, r)))))
+				goals = append(goals, Forall([]Term{r}, Implies(And(Le(root, alloc0), Ne(r, IntLit(0)), Gt(root, IntLit(0))), Eq(Sel(t1, r), Sel(t0, r)))))
 				infos = append(infos, comp)
 			}
 		}
